@@ -588,6 +588,13 @@ func (t *c05Tracer) emit(o obj) {
 	t.w.write(o)
 }
 
+func c05ObjType(o any) string {
+	if _, ok := o.(*starlark.List); ok {
+		return "list"
+	}
+	return "table"
+}
+
 func (t *c05Tracer) reset(run string) {
 	t.ids = map[any]int{}
 	t.objs = nil
@@ -603,11 +610,11 @@ func (t *c05Tracer) install() {
 		if delta < 0 {
 			ev = "done"
 		}
-		t.emit(obj{"ev": ev, "o": t.id(o), "c": starlark.VerifCountOf(o)})
+		t.emit(obj{"ev": ev, "o": t.id(o), "c": starlark.VerifCountOf(o), "ot": c05ObjType(o)})
 	}
 	starlark.VerifFreeze = func(o any) {
 		if t.on {
-			t.emit(obj{"ev": "freeze", "o": t.id(o)})
+			t.emit(obj{"ev": "freeze", "o": t.id(o), "ot": c05ObjType(o)})
 		}
 	}
 }
